@@ -17,6 +17,7 @@ package license
 import (
 	"crypto/rand"
 	"encoding/base64"
+	"errors"
 	"math"
 	"math/big"
 	"time"
@@ -62,6 +63,11 @@ func parseV1(data string) (*V1, error) {
 	raw, err := base64.RawURLEncoding.DecodeString(data)
 	if err != nil {
 		return nil, err
+	}
+
+	// A v1 license is exactly 32 bytes: key (16), user (4), sign (4), expiry (4), type (4)
+	if len(raw) < 32 {
+		return nil, errors.New("license: invalid v1 license length")
 	}
 
 	// Get the expiration time
